@@ -1,20 +1,19 @@
 /* bashf_uf.c - bash-f as an uninterpreted function of the 192-octet state (CBMC only).
  * 24 output words, each an uninterpreted function of the 24 input words. */
 #include <bee2/crypto/bash.h>
+#include <string.h>
 typedef unsigned long long U;
 #define A24 U,U,U,U,U,U,U,U,U,U,U,U,U,U,U,U,U,U,U,U,U,U,U,U
 U __CPROVER_uninterpreted_bashF_w(unsigned, A24);
 unsigned vp_uf_bashf_calls = 0;
 void bashF(octet block[192], void* stack)
 {
-	U s[24]; unsigned i, j;
-	for (i = 0; i < 24; ++i) { s[i] = 0; for (j = 0; j < 8; ++j) s[i] |= (U)block[8 * i + j] << (8 * j); }
+	U s[24], y[24]; unsigned i;
+	memcpy(s, block, 192);      /* little-endian host: the octet string is the memory image of the words */
 	for (i = 0; i < 24; ++i)
-	{
-		U y = __CPROVER_uninterpreted_bashF_w(i, s[0], s[1], s[2], s[3], s[4], s[5], s[6], s[7], s[8], s[9], s[10], s[11],
+		y[i] = __CPROVER_uninterpreted_bashF_w(i, s[0], s[1], s[2], s[3], s[4], s[5], s[6], s[7], s[8], s[9], s[10], s[11],
 			s[12], s[13], s[14], s[15], s[16], s[17], s[18], s[19], s[20], s[21], s[22], s[23]);
-		for (j = 0; j < 8; ++j) block[8 * i + j] = (octet)(y >> (8 * j));
-	}
+	memcpy(block, y, 192);
 	++vp_uf_bashf_calls;
 }
 size_t bashF_deep() { return 0; }
